@@ -1,24 +1,31 @@
 """
 C12 — results do not depend on how the OS splits reads and writes.
 
-Proof: lean/Sqfs/Props/C12.lean over the model lean/Sqfs/Model/IoLoops.lean (retry loops of file.c / ostream.c /
-unix.c, the buffered file istream, sqfs_istream_read/skip/splice, istream_get_line, record_to_memory), for every
-OS script of short counts / EINTR / hard errors.
+Proof: lean/Sqfs/Props/C12.lean over the models lean/Sqfs/Model/{IoLoops,XfrmStream,C12TarStream}.lean (retry loops of
+file.c / ostream.c / unix.c, the buffered file istream, sqfs_istream_read/skip/splice, istream_get_line,
+record_to_memory, the transforming streams of lib/xfrm, the member stream of the tar iterator and the head of it_next),
+for every OS script of short counts / EINTR / hard errors.
 
 Tie (a), in process: harness/h_c12.c links the real sources of the working tree; read/write/pread/pwrite/lseek/
 ftruncate/fsync are redirected at link time (--wrap) to functions that answer from the scenario's OS script and
 serve the data from memory.  The same scenario lines go to `sqfsmodel c12`; outputs (status, bytes, private
-stream state, number of script events consumed, the call-by-call trace) are diffed.  The istream buffer size is
-read from the code (`bufsz` op); additional builds of the *same* istream.c with only the BUFSZ constant changed
-(1, 7, 64) make every buffer boundary reachable with byte-sized chunks.
+stream state, number of script events consumed, the call-by-call trace) are diffed as strings.  The buffer sizes are
+read from the code (`bufsz`/`xbufsz` ops); additional builds of the *same* istream.c / xfrm istream.c / xfrm ostream.c
+with only the BUFSZ constants changed (1, 7, 64) make every buffer boundary reachable with byte-sized chunks — the
+check fails (CheckFailure) when such a build cannot be made or does not have the wanted sizes.  The harness processes
+hand the streams descriptors of different kinds (FDTYPES), since no data flows through them anyway.
 The property itself is evaluated on the implementation: the run under a script of short counts/EINTRs must
-equal the implementation's own run under the empty script, and must equal the ideal-stream specification
-(`sqfsmodel c12 spec`); under hard errors "status 0 ⇒ complete transfer" is checked by an independent monitor.
+equal the implementation's own run under the empty script, the ideal-stream specification (`sqfsmodel c12 spec`)
+and, for line readers, the byte-at-a-time scanner (`lines`); under hard errors "status 0 ⇒ complete transfer" is
+checked by independent monitors; for tar members an independent monitor recomputes the expanded member content.
 
 Tie (b), tool level: harness/shim_io.c (LD_PRELOAD: seeded short counts and EINTR on read/write/pread/pwrite)
-on un-sanitized builds of gensquashfs, tar2sqfs, sqfs2tar, rdsquashfs plus a pipe feeder that delivers stdin in
+on un-sanitized builds of gensquashfs, tar2sqfs, sqfs2tar, rdsquashfs plus a pipe/socket feeder that delivers stdin in
 chunks down to one byte and drains stdout slowly; sha256 of the image / archive / unpacked tree and the exit
 status must equal the unperturbed run's.
+
+Every part has a floor: a part that evaluated nothing (or too little) raises CheckFailure, which tools/check reports as
+a violation — never a pass.
 """
 import hashlib, io, json, os, re, subprocess, tarfile, threading, time
 import vlib
@@ -56,7 +63,7 @@ def _const(name, default):
 
 
 ERR_COMPRESSOR = _const("errCompressor", 3)   # to recognise codec errors of the toy codec in a monitor
-STREAMK = ("istream", "xistream", "xostream", "tarstrm")
+STREAMK = ("istream", "xistream", "xostream", "tarstrm", "xtarstrm")
 HARNESS_TIMEOUT = 600     # seconds per harness process; an idle machine needs < 5 s (quick) / < 60 s (thorough)
 
 
@@ -291,8 +298,9 @@ def expand_member(record, filesize, sparse):
     return bytes(out)
 
 
-def gen_tarstrm(rng, B, big):
-    """one archive member (plain or old-GNU sparse) read through the real tar iterator's member stream"""
+def gen_tarstrm(rng, B, big, BX=None):
+    """one archive member (plain or old-GNU sparse) read through the real tar iterator's member stream; with BX the
+    archive stream is the transforming istream (pass-through codec) on top of the file istream"""
     sparse = []
     if rng.random() < 0.6:
         # sorted, non-overlapping data regions; holes around the 4096-byte zero window of the member stream
@@ -338,6 +346,11 @@ def gen_tarstrm(rng, B, big):
     sc = gen_script(rng, 40 if not big else 100, max(B, 8) if not big else B, hard)
     sp = ",".join("%d:%d" % x for x in sparse) if sparse else "-"
     o = ",".join(ops)
+    if BX is not None:
+        return {"kind": "xtarstrm", "B": B, "script": sc,
+                "line": "xtarstrm %d %d %s %s %d %d %s %s %s" % (B, BX, fl, d, recsize, filesize, sp, o, script_tok(sc)),
+                "full": "xtarstrm %d %d %s %s %d %d %s %s -" % (B, BX, fl, d, recsize, filesize, sp, o),
+                "args": (d, recsize, filesize, sparse, ops)}
     return {"kind": "tarstrm", "B": B, "script": sc,
             "line": "tarstrm %d %s %s %d %d %s %s %s" % (B, fl, d, recsize, filesize, sp, o, script_tok(sc)),
             "full": "tarstrm %d %s %s %d %d %s %s -" % (B, fl, d, recsize, filesize, sp, o),
@@ -419,7 +432,7 @@ def observable(kind, out):
     """what a caller can see: everything except the number of script events left, the syscall trace and (for the
     istream) the private buffer indices"""
     o = TAIL.sub("", out)
-    if kind in ("istream", "xistream", "tarstrm"):
+    if kind in ("istream", "xistream", "tarstrm", "xtarstrm"):
         o = re.sub(r"x?st=\S+ ", "", o)
         o = re.sub(r" size=\d+ sparse=\d+ pos=\d+", "", o)
     if kind in ("ostream", "xostream"):
@@ -455,7 +468,7 @@ def never_short(sc):
             bad.append("write_at failed without a hard error")
     elif sc["kind"] == "ostream" and sc["args"][0] in "SN":
         pass          # continue-after-failure client: correspondence only (no tool calls a stream again after a failure)
-    elif sc["kind"] == "tarstrm":
+    elif sc["kind"] in ("tarstrm", "xtarstrm"):
         bad += tar_monitor(sc, out)
     elif sc["kind"] == "ostream":
         fl, ops = sc["args"]
@@ -648,7 +661,7 @@ def run_model(ctx, lines, jobs):
 
 
 # ------------------------------------------------------------------------------------------------ in-process part
-OPS_FIELD = {"ostream": 2, "istream": 4, "xistream": 5, "xostream": 3, "tarstrm": 7}
+OPS_FIELD = {"ostream": 2, "istream": 4, "xistream": 5, "xostream": 3, "tarstrm": 7, "xtarstrm": 8}
 
 
 def parse_line(l, B, small, bx):
@@ -660,7 +673,7 @@ def parse_line(l, B, small, bx):
     kind = w[0]
     script = [] if w[-1] == "-" else w[-1].split(",")
     try:
-        b = int(w[1]) if kind in ("istream", "xistream", "tarstrm") else 0
+        b = int(w[1]) if kind in ("istream", "xistream", "tarstrm", "xtarstrm") else 0
         sc = {"kind": kind, "B": b, "script": script, "line": l, "full": " ".join(w[:-1] + ["-"]), "args": None}
         if kind == "readat":
             sc["args"] = (w[1], int(w[2]), int(w[3]))
@@ -681,6 +694,11 @@ def parse_line(l, B, small, bx):
             sc["spec"] = "tarspec %s %s %s %s %s %s" % (w[1], w[3], w[4], w[5], w[6], w[7])
             sparse = [] if w[6] == "-" else [tuple(int(v) for v in e.split(":")) for e in w[6].split(",")]
             sc["args"] = (w[3], int(w[4]), int(w[5]), sparse, [] if w[7] == "-" else w[7].split(","))
+        elif kind == "xtarstrm":
+            if b not in bx or bx[b][0] != int(w[2]):
+                return None
+            sparse = [] if w[7] == "-" else [tuple(int(v) for v in e.split(":")) for e in w[7].split(",")]
+            sc["args"] = (w[4], int(w[5]), int(w[6]), sparse, [] if w[8] == "-" else w[8].split(","))
         elif kind == "xistream":
             sc["spec"] = "xspec %s %s %s %s" % (w[1], w[2], w[4], w[5])
             if b not in bx or bx[b][0] != int(w[2]):
@@ -848,6 +866,9 @@ def inprocess(ctx, hs, B, small, bx):
         scen.append(gen_xostream(rng, b, bx[b][1], False))
         if k % 2 == 0:
             scen.append(gen_tarstrm(rng, rng.choice(small + [B]), False))
+        if k % 8 == 1:
+            b = rng.choice(small + [B])
+            scen.append(gen_tarstrm(rng, b, False, bx[b][0]))
     for k in range(n_big):
         if k % 2 == 0:
             scen.append(gen_xistream(rng, B, bx[B][0], True))
@@ -948,8 +969,9 @@ def run(ctx):
                 len(done), len(nontrivial), consumed, evhist, longest, nfull, nspec, nlines, t_in))
     if not any(v["key"].startswith("crash:") for v in ctx.violations):
         # floors: a part of the check that evaluated nothing is a failure of the check, not a pass
-        need = ["readat", "writeat", "ostream", "istream:B=%d" % B, "xistream:B=%d" % B, "xostream:B=%d" % B, "tarstrm:B=%d" % B]
-        need += ["istream:B=%d" % b for b in small] + ["tarstrm:B=%d" % b for b in small]
+        need = ["readat", "writeat", "ostream", "istream:B=%d" % B, "xistream:B=%d" % B, "xostream:B=%d" % B, "tarstrm:B=%d" % B,
+                "xtarstrm:B=%d" % B]
+        need += ["istream:B=%d" % b for b in small] + ["tarstrm:B=%d" % b for b in small] + ["xtarstrm:B=%d" % b for b in small]
         lack = [k for k in need if kinds.get(k, 0) < (10 if ctx.quick() else 100)]
         lack += ["xistream (small buffers)"] if sum(kinds.get("xistream:B=%d" % b, 0) for b in small) < 200 else []
         lack += ["xostream (small buffers)"] if sum(kinds.get("xostream:B=%d" % b, 0) for b in small) < 200 else []
